@@ -171,3 +171,49 @@ func init() {
 		return nil
 	}
 }
+
+func init() {
+	checks["C18"] = func(run *report.Run) error {
+		run.Rule = "tables of the common fragment (literal roots; literal and plain-variable route segments; Consumes/Produces/If), every request is dispatched on twin containers that differ only in Container.Router(...); inside the quantifier (Spec.wfCommon, distinct clean roots — evaluated by the driver) the two real outcomes must be the same (function, parameters, or status and Allow set) and each must equal the model's; non-normal paths and rank disagreements are the classes of the open findings F15, F16, F17"
+		routingMeta(run)
+		n := sizes(run, 150, 3000)
+		o := routing.FullOpts("curly")
+		o.AllowRe, o.AllowSuf, o.AllowWild, o.AllowVerb, o.RootVars, o.RootRe = false, false, false, false, false, false
+		twin := func(r *rng.R, cfg routing.Config, reqs []routing.Req) []routing.Variant {
+			c2 := cfg
+			c2.Router = "jsr"
+			v := routing.Variant{Name: "jsr", Cfg: c2, Reqs: make([]*routing.Req, len(reqs))}
+			for i := range reqs {
+				rq := reqs[i]
+				v.Reqs[i] = &rq
+			}
+			return []routing.Variant{v}
+		}
+		pairs, err := routing.RunVariants(run.Seed*15485863+1, n, 20, o, twin)
+		if err != nil {
+			return err
+		}
+		routing.CheckPairs(run, routing.PairSpec{ID: "C18",
+			Applies: func(p *routing.PairCase) bool {
+				return p.Class["wfCommon"] == "1" && p.Class["rootsDistinct"] == "1" && p.Class["rootsClean"] == "1" && p.Class["routeIdsDistinct"] == "1"
+			},
+			Known: func(p *routing.PairCase) string {
+				switch {
+				case strings.Contains(p.A.Req.Path, "\n"):
+					return "F16"
+				case p.Class["normalPath"] == "0":
+					return "F15"
+				case p.Class["ranksAgree"] == "0":
+					return "F17"
+				}
+				return ""
+			}}, "twin-routers", pairs)
+		for id, w := range map[string]func() bool{"F15": routing.WitnessF15, "F16": routing.WitnessF16pair, "F17": routing.WitnessF17} {
+			if w() {
+				run.KnownHits[id]++
+			}
+		}
+		run.Extra["skipped_tables_F11"] = routing.SkippedBuild
+		return nil
+	}
+}
